@@ -25,6 +25,7 @@ META["explanation"] += ' R04.5 no acquisition of the state lock while a kept gua
 META["explanation"] += ' Shared with C01: R01.13 and R01.14 (a conditional setter deciding on a stale derivation of the value returns a result no sequential order explains).'
 META["explanation"] += ' R04.5 also sees acquisitions made inside closures handed to combinators (`poll.map(|r| r.map(|_| self.read()))`) while a guard is alive in the enclosing body.'
 META["explanation"] += ' Also evaluated: the unsafe inventory R20.1 and R20.5 marker-impl-bound (an `unsafe impl Sync` for the state would let two read guards race).'
+META["explanation"] += ' Shared: the leaf ready clause R01.4 / R01.4b (a value is handed out exactly for observed < current).'
 
 ACQ = r"^(std::sync::RwLock|tokio::sync::RwLock)::<.*>::(write|read|try_write|try_read|blocking_write|blocking_read|write_owned|read_owned)$"
 EXCL = r"::(write|try_write|blocking_write|write_owned)$"
@@ -49,7 +50,9 @@ def run(ctx):
         c01.r01_6(ctx, init)
         c01.r01_7(ctx, init)
         c01.r01_13(ctx, nset)
-        c01.r01_14(ctx)   # a conditional setter deciding on a stale cache returns a result no sequential order explains
+        c01.r01_14(ctx)
+        from . import leaf
+        leaf.check_ready_clause(ctx, "R01.4")   # a value is handed out exactly for observed < current (not `!=`, which is also true after close)   # a conditional setter deciding on a stale cache returns a result no sequential order explains
     groups.eyeball_close_and_wake(ctx)
     # the sequential order is an argument about safe Rust: every hand-written `unsafe impl Send / Sync` of the crate is in the audited
     # inventory and its bounds cover what it stores (an `unsafe impl Sync` for the state would let two read guards race on a Cell)
